@@ -118,6 +118,7 @@ func c20DrawConfig(tp *simkern.Tape) lazyw.Config {
 	c.Compression = []int{-1, 0, 2}[tp.Draw(3)]
 	c.MaxRequestBytes = []int64{0, 700, 5000}[tp.Draw(3)]
 	c.MaxResponseBytes = []int64{0, 100000, 2000}[tp.Draw(3)]
+	c.CapsInHook = !c.NoHook && tp.Bool(1, 3)
 	c.MaxExternalizedBytes = []int64{0, 1 << 20}[tp.Draw(2)]
 	c.UploadProvider = tp.Bool(1, 2)
 	if c.UploadProvider {
@@ -647,7 +648,7 @@ func init() {
 	Registry["C20"] = &Info{
 		Run:   C20,
 		Level: "exploration",
-		Rule:  "each run draws a server configuration (prefix, CORS off/*/origin, compression default/off/level 2, max request/response/externalized caps (response cap sometimes below the big result), upload provider and upload cap, proof-required advertisement, declared proxy auth headers, token introspection with rate 1/2/default, sticky with 0-2 echo headers, external storage or a fetch-only external-location configuration, OAuth resource metadata, authenticator, access log / dispatch hook, page switches, serve-start hook failing its first 0-2 invocations or absent) and 1-3 client tasks issuing 4-9 (thorough 4-17) requests from 30 kinds covering 200/204/400/401/403/404/405/413/415/429/500/503 exits, preflights, health, pages, sticky open/resume/close/delete, upload-URL, introspection; each request carries one of 13 X-Request-ID shapes (absent, empty, blank, plain, padded, 128/129 bytes, 128 bytes padded, 300 bytes, multi-byte at the 128/129-byte boundary, caller-chosen hex); the monitor judges every response; requests of different tasks interleave at woven and harness yields, the clock advances by tape; distinct = distinct schedule fingerprint; non-trivial = a hook failure fired, a non-2xx exit was produced or tasks interleaved",
+		Rule:  "each run draws a server configuration (prefix, CORS off/*/origin, compression default/off/level 2, max request/response/externalized caps (response cap sometimes below the big result), upload provider and upload cap, proof-required advertisement, declared proxy auth headers, token introspection with rate 1/2/default, sticky with 0-2 echo headers, external storage or a fetch-only external-location configuration, OAuth resource metadata, authenticator, access log / dispatch hook, page switches, serve-start hook failing its first 0-2 invocations or absent; in a third of the runs the caps are applied by that hook when it succeeds rather than before serving) and 1-3 client tasks issuing 4-9 (thorough 4-17) requests from 30 kinds covering 200/204/400/401/403/404/405/413/415/429/500/503 exits, preflights, health, pages, sticky open/resume/close/delete, upload-URL, introspection; each request carries one of 13 X-Request-ID shapes (absent, empty, blank, plain, padded, 128/129 bytes, 128 bytes padded, 300 bytes, multi-byte at the 128/129-byte boundary, caller-chosen hex); the monitor judges every response; requests of different tasks interleave at woven and harness yields, the clock advances by tape; distinct = distinct schedule fingerprint; non-trivial = a hook failure fired, a non-2xx exit was produced or tasks interleaved",
 		Real:  []string{"vgirpc.HttpServer.ServeHTTP and every route handler (unary, stream init/exchange, __describe__, __upload_url__, __introspect_token__, DELETE __session__, health, pages, well-known, preflight)", "resolveRequestID / addCapabilityHeaders / addCorsHeaders / writeUnauthorized", "Server.notifyTransport with the serve-start hook", "sticky registry and response-header shim", "compressing and counting response writers", "introspection rate limiter on the simulated clock"},
 		Stub:  []string{"HTTP transport (direct ServeHTTP call, httptest recorder)", "serve-start hook, authenticator, token resolver, upload-URL provider, object store, access-log writer (harness callbacks that yield)", "scripted handlers"},
 		Quick: 720, Thorough: 200000,
